@@ -191,6 +191,19 @@ def extract(repo):
     return t
 
 
+# Last-known-good constants (the unchanged tree).  Used by the checks ONLY to keep the model correspondence and the
+# proofs' status observable after a TranslateError; the TranslateError itself is always reported and the evidence
+# labels the run as using fallback tables.
+FALLBACK = {
+    "pyscf_rhf": [(0, 2, 3, 1)], "pyscf_uhf": [(0, 2, 3, 1)] * 3,
+    "mol_rhf_axes": (0, 3, 1, 2), "mol_uhf_axes": (0, 3, 1, 2), "mol_rhf_factor": "FHalf",
+    "mol_uhf_factors": ["FHalf", "FOne", "FHalf"], "rdms_axes": (0, 3, 1, 2), "rdms_factor": "FOne",
+    "pad_r_in": (1, 0, 3, 2), "pad_r_out": (1, 0, 3, 2), "pad_u_in": [(1, 0, 3, 2)] * 3, "pad_u_out": [(1, 0, 3, 2)] * 3,
+    "core_orbitals": [("H", 0), ("He", 0), ("Li", 1), ("Be", 1), ("B", 1), ("C", 1), ("N", 1), ("O", 1), ("F", 1), ("Ne", 1),
+                      ("Na", 5), ("Mg", 5), ("Al", 5), ("Si", 5), ("P", 5), ("S", 5), ("Cl", 5), ("Ar", 5)],
+}
+
+
 def _ax(t):
     return "(%d, %d, %d, %d)" % t
 
